@@ -149,6 +149,9 @@ def has_underfull_measure(part):
     return False
 
 
+OFFPOINT_KEY = "divisions-change-inside-measure-where-nothing-starts"
+
+
 def overlaps_in_its_voice(part, note_id):
     """The note sounds together with a note of its own voice that has another onset or end (the writer moves one of them)."""
     import partitura.score as S
@@ -232,7 +235,8 @@ def check_roundtrip(ctx, arg, xml_bytes, label):
                 if got is None or [tuple(x) for x in got] != exp:
                     miss = [x for x in exp if got is None or x not in got][:3]
                     extra = [x for x in (got or []) if x not in exp][:3]
-                    ctx.violation("written-file-denotes-other-sounding-notes", f"part {p.id}: score-only {[(str(a), str(b), c) for a, b, c in miss]}, "
+                    ctx.violation(OFFPOINT_KEY if getattr(ctx, "c03_hostile", None) == "divisions-change-off-time-points"
+                                  else "written-file-denotes-other-sounding-notes", f"part {p.id}: score-only {[(str(a), str(b), c) for a, b, c in miss]}, "
                                   f"file-only {[(str(a), str(b), c) for a, b, c in extra]}", w)
                     break
         # (a) reload and compare
@@ -274,6 +278,8 @@ def check_roundtrip(ctx, arg, xml_bytes, label):
                 cat, only_a, only_b = d
                 key = classify(cat, only_a, only_b, part)
                 hz = getattr(ctx, "c03_hostile", None)
+                if hz == "divisions-change-off-time-points":
+                    key = OFFPOINT_KEY
                 if hz is None and cat == "notes" and "voice" in key and only_a and all(overlaps_in_its_voice(part, r_[1]) for r_ in only_a):
                     hz = "intra-voice-overlap"       # (an importer's score, e.g. from MIDI, with notes overlapping inside a voice)
                 if hz == "intra-voice-overlap" and cat == "notes" and "voice" in key:
@@ -312,7 +318,7 @@ def check_roundtrip(ctx, arg, xml_bytes, label):
                               "read them, so the re-export of the re-loaded score lacks them", w)
                 return
             hz = getattr(ctx, "c03_hostile", None)
-            if hz == "intra-voice-overlap":
+            if hz in ("intra-voice-overlap", "divisions-change-off-time-points"):
                 return                   # consequences of the hostile construction are reported by the comparison above
             ctx.violation("re-export-not-byte-identical", f"line {i}: {la[i].strip() if i < len(la) else '<eof>'!r} vs {lb[i].strip() if i < len(lb) else '<eof>'!r}", w)
     finally:
@@ -364,6 +370,7 @@ def plan(tier, seed):
     if tier == "quick":
         other = corpora.kern_files()[:4] + corpora.mei_files()[:3] + corpora.midi_files()[:1]
     items += [["fixture-other", f] for f in other]
+    items += [["divchange", i] for i in range(n // 4)]
     return items
 
 
@@ -385,6 +392,22 @@ def run_item(ctx, item):
     import partitura
     import partitura.score as S
     from workloads import gen_score
+    if item[0] == "divchange":
+        # divisions changing inside a measure (set after the content is on the timeline)
+        rng = ctx.rng("divchange", item[1])
+        part, q, f, where, change, n_before = gen_score.make_midmeasure_divchange_part(rng, late=rng.random() < 0.5)
+        part.add(S.Page(1), 0)
+        part.add(S.System(1), 0)
+        S.set_end_times([part])          # as the importer does (constant directions last until the next one / the end)
+        sc = S.Score([part], id="dc")
+        # the exporter cuts a measure where the divisions of neighbouring time points differ: a change where nothing starts
+        # (inside a note, or in a silent stretch without a time point) is a known finding
+        crossing = any(n.start.t < change < n.end.t for n in part.notes)
+        ctx.c03_hostile = None if (part.get_point(change) is not None and not crossing) else "divisions-change-off-time-points"
+        ctx.c03_label = f"divchange:{item[1]}"
+        ctx.try_call(partitura.save_musicxml, sc)
+        ctx.case(["divchange", item[1]], True, cls="divisions-change-inside-measure:" + ("where-nothing-starts-or-inside-a-note" if ctx.c03_hostile else "at-an-onset"), sample={"divisions": [q, q * f], "change_at": change, "where": where})
+        return
     if item[0] in ("fixture", "fixture-other"):
         ctx.c03_hostile = None
         ctx.c03_label = "fixture:" + item[1].split("/")[-1]
